@@ -57,20 +57,20 @@ impl<'a> StateMachine<'a> {
     //@ fn src/handlers/diff_header.rs StateMachine::should_write_generic_diff_header_header_line spec=diff_header.should_write_generic
     //@ fn src/handlers/diff_header.rs StateMachine::_handle_diff_header_header_line spec=diff_header._handle_header
     //@ fn src/handlers/diff_header.rs StateMachine::test_pending_line_with_diff_name
-    //@| ensures r == (self.state is DiffHeader || self.source == Source::DiffUnified),
+    //@| ensures r == (self.state is DiffHeader || self.source == Source::DiffUnified),  // @C10,C14:a.pending.file.header.exists.only.in.a.diff.header.or.plain.diff.output
     //@ fn src/handlers/diff_header.rs StateMachine::handle_pending_line_with_diff_name spec=diff_header.handle_pending
     //@ fn src/handlers/diff_header.rs StateMachine::test_diff_header_plus_line
     //@| ensures r == hdr_plus_test(self),
     //@|         r ==> self.state is DiffHeader,  // @C14,C01:a.line.is.taken.for.the.plus.header.only.directly.after.the.minus.header.never.inside.a.hunk
     //@ fn src/handlers/diff_header.rs StateMachine::handle_diff_header_plus_line spec=diff_header.handle_plus
     //@ fn src/handlers/diff_header.rs StateMachine::test_diff_header_minus_line
-    //@| ensures r ==> (self.state is DiffHeader || self.source == Source::DiffUnified),
+    //@| ensures r ==> (self.state is DiffHeader || self.source == Source::DiffUnified),  // @C01,C04,C14:a.minus.header.is.looked.for.only.in.a.diff.header.or.plain.diff.output
     //@ fn src/handlers/diff_header.rs StateMachine::handle_diff_header_minus_line spec=diff_header.handle_minus
     //@ fn src/handlers/diff_header.rs StateMachine::test_diff_header_file_operation_line
-    //@| ensures r ==> (self.state is DiffHeader || self.source == Source::DiffUnified),
+    //@| ensures r ==> (self.state is DiffHeader || self.source == Source::DiffUnified),  // @C04,C14:rename.and.copy.lines.are.looked.for.only.in.a.diff.header
     //@ fn src/handlers/diff_header.rs StateMachine::handle_diff_header_file_operation_line spec=diff_header.handle_file_operation
     //@ fn src/handlers/diff_header_diff.rs StateMachine::test_diff_header_diff_line
-    //@| ensures r == is_prefix("diff "@, self.line@),
+    //@| ensures r == is_prefix("diff "@, self.line@),  // @C04,C10,C14:a.file.section.starts.at.a.line.that.starts.with.diff
     //@ fn src/handlers/diff_header_diff.rs StateMachine::handle_diff_header_diff_line spec=diff_header.handle_diff_line
     //@before <<<self.handle_pending_line_with_diff_name()?;>>>| assert(/* @C10,C14:hdl.pending.header.is.written.with.the.previous.sections.data */ self.diff_line == old(self).diff_line && self.minus_file == old(self).minus_file && self.plus_file == old(self).plus_file && self.mode_info == old(self).mode_info && self.current_file_pair == old(self).current_file_pair && self.handled_diff_header_header_line_file_pair == old(self).handled_diff_header_header_line_file_pair);
     //@ fn src/handlers/mod.rs StateMachine::handle_additional_cases spec=diff_header.handle_additional_cases
